@@ -21,8 +21,10 @@ fn strategy(tier: Tier) -> BoxedStrategy<LedgerCase> {
 }
 
 fn check(case: &LedgerCase, obs: &mut Obs) -> Verdict {
-    let files = case.files();
-    let csv = &files[0].1;
+    // a third of the histories are handed over as two or three files (same row order)
+    let files = case.files_maybe_split();
+    let csv_joined: String = if files.len() == 1 { files[0].1.clone() } else { files.iter().map(|(n, t)| format!("--- {n}\n{t}")).collect() };
+    let csv = &csv_joined;
     let opts = case.run_opts();
     let res = match run_deltas(&files, &opts) { Ok(r) => r, Err(RunErr::Panic(p)) => return classify_panic(&p, csv), Err(RunErr::Run(e)) => return Verdict::Skip(format!("run-error:{}", e.split_whitespace().take(3).collect::<Vec<_>>().join("_"))), Err(RunErr::BadInit(e)) => return Verdict::Fail(e) };
     if res.values().any(|s| s.err.is_some()) { return Verdict::Skip("some-security-rejected(property covers error-free inputs)".into()); }
